@@ -36,6 +36,7 @@ type DiskFault struct {
 	Kind    string `json:"kind"` // chunk | prefix | wfail | evolve
 	Arg     int    `json:"arg"`
 	Partial bool   `json:"partial,omitempty"`
+	Transient bool `json:"transient,omitempty"`
 }
 
 type DiskCase struct {
@@ -378,18 +379,16 @@ func (e *diskEngine) sweepNode(w *World, n *Node, st *State, dc *DiskCase, stats
 	base := e.observe(orig, n, st, seed)
 	// (i) reader chunkings
 	if want("chunk") {
-		for mode := 0; mode < 6; mode++ {
+		for _, mode := range []int{0, 1, 2, 3, 4, 5, 10} {
 			if only != nil && only.Arg != mode {
 				continue
-			}
-			if only != nil && only.Arg >= 6 {
-				break
 			}
 			cr := newChunkReader(data, mode, seed^uint64(mode))
 			inst, c2, err, pan := e.restore(n, seed, cr)
 			stats.Faults["chunked_restore"]++
 			stats.Faults["short_read"] += cr.short
 			stats.Faults["eof_with_data"] += cr.eofWithData
+			stats.Faults["read_returns_0_nil"] += cr.zeroReads
 			fl := DiskFault{Node: n.idx, Kind: "chunk", Arg: mode}
 			switch {
 			case pan:
@@ -475,15 +474,20 @@ func (e *diskEngine) sweepNode(w *World, n *Node, st *State, dc *DiskCase, stats
 	// (iii) failing sink at every offset
 	if want("wfail") {
 		for _, lim := range offs {
-			for _, partial := range []bool{false, true} {
-				if only != nil && only.Arg >= 0 && (only.Arg != lim || only.Partial != partial) {
+			for variant := 0; variant < 3; variant++ {
+				// the sink fails for good (reporting 0 or the bytes it took), or for one write only
+				partial, transient := variant == 1, variant == 2
+				if only != nil && only.Arg >= 0 && (only.Arg != lim || only.Partial != partial || only.Transient != transient) {
 					continue
 				}
-				fl := DiskFault{Node: n.idx, Kind: "wfail", Arg: lim, Partial: partial}
+				fl := DiskFault{Node: n.idx, Kind: "wfail", Arg: lim, Partial: partial, Transient: transient}
 				if !ordered {
 					fl.Arg = -1
 				}
-				fw := &failWriter{limit: lim, partial: partial}
+				fw := &failWriter{limit: lim, partial: partial, transient: transient}
+				if transient {
+					stats.Faults["writer_failed_once"]++
+				}
 				var c2 int64
 				err, pan := guard(func() error { var e2 error; c2, e2 = orig.write(fw); return e2 })
 				stats.Faults["writer_failed"]++
@@ -491,7 +495,7 @@ func (e *diskEngine) sweepNode(w *World, n *Node, st *State, dc *DiskCase, stats
 				case pan:
 					report(n, "write-panic", fmt.Sprintf("writer panicked when the sink failed at byte %d: %v", lim, err), fl)
 				case err == nil:
-					report(n, "write-noerr", fmt.Sprintf("the sink failed at byte %d of %d (partial=%v) but the writer returned no error (reported %d bytes)", lim, len(data), partial, c2), fl)
+					report(n, "write-noerr", fmt.Sprintf("the sink failed at byte %d of %d (partial=%v, once only=%v) but the writer returned no error (reported %d bytes)", lim, len(data), partial, transient, c2), fl)
 				case c2 > int64(fw.buf.Len()):
 					report(n, "write-overcount", fmt.Sprintf("the sink accepted %d bytes before failing, the writer reported %d", fw.buf.Len(), c2), fl)
 				}
